@@ -42,7 +42,7 @@ def _job(args):
     out = dict(n=0, nontrivial=0, stats={}, violations=[], disagreements=[], pairs=[], samples=[])
     for it in range(n):
         root, dirs, files = scan.gen_tree(rng, max_depth=5)
-        scan.gen_imports(rng, dirs, files, nested=False)
+        scan.gen_imports(rng, dirs, files, nested=True)
         # absolute imports written relative to a directory's parent (resolved when that directory is module_path)
         pyfiles = [f for f, v in files.items() if v["py"]]
         for f in pyfiles:
@@ -118,7 +118,7 @@ def _job(args):
                         continue
                     for a, b in extra:
                         # must be explained by an absolute import written relative to mp's parent
-                        srcs = files[tuple(a.split("."))]["body"]
+                        srcs = scan.import_statements(files[tuple(a.split("."))]["body"])
                         rel = b[len(scan.dotted(mp[:-1])) + 1:]
                         if not any(s[0] == "import" and rel in s[1] for s in srcs) and not any(s[0] == "from" and s[1] == 0 and (s[2] == rel or any(s[2] + "." + nmx == rel for nmx in s[3])) for s in srcs):
                             out["violations"].append((dict(case, unexplained=[a, b]), f"sub scan of {pre} has an import {a}->{b} no statement accounts for", {"kind": "subscan"}))
@@ -149,7 +149,7 @@ def module_object_entry_point(ctx, n):
         _counter[0] += 1
         root = f"pk{os.getpid()}x{_counter[0]}"
         _, dirs, files = scan.gen_tree(rng, max_depth=4, root=root, with_init=False)
-        scan.gen_imports(rng, dirs, files, nested=False)
+        scan.gen_imports(rng, dirs, files, nested=True)
         mp = rng.choice(dirs)
         for i in range(1, len(mp) + 1):
             files[mp[:i] + ("__init__",)] = {"py": True, "body": []}      # really importable, nothing executed
